@@ -34,7 +34,7 @@ def fold(run, results, prefix):
                     r["roles"], label, "+".join(cl), "success" if r["res"] == "ok" else "error", r["relation"])
                 run.fail(sig, dict(call=r["call"], fault=label, errno=r["err"], operation_index=r["at"],
                                    outcome=r["res"], exception=r["exc"], failing=r["bad"], pre_state=r["vals"]),
-                         dict(harness="fault", vals=r["vals"], clauses=[prefix]))
+                         dict(harness="fault", vals=r["vals"], clauses=[prefix], expect_hang=r.get("expect_hang", False)))
 
 
 def main(tier, replay_payload=None):
